@@ -299,7 +299,7 @@ impl TransformExtensionList {
                 }
                 current_tkey = Some(parse_tkey(subtag)?);
                 iter.next();
-            } else if current_tkey.is_some() {
+            } else if current_tkey.is_some() && slen != 1 {
                 if let Some(tval) = parse_tvalue(subtag)? {
                     current_tvalue.push(tval);
                 }
